@@ -369,23 +369,40 @@ def _plain(k):
 
 
 def _enc(x):
-    if isinstance(x, bytes):
-        return tt(x)
-    return tt(str(x).encode('utf-8', 'surrogatepass'))
+    """tokens of a value held by the code under test (str, bytes or anything else)"""
+    if isinstance(x, (bytes, bytearray)):
+        return tt(bytes(x))
+    try:
+        return tt(str(x).encode('utf-8', 'surrogatepass'))
+    except Exception:
+        return [998]
+
+
+def _txt(x):
+    """text view of a value held by the code under test, for classification only"""
+    if isinstance(x, (bytes, bytearray)):
+        return bytes(x).decode('utf-8', 'replace')
+    try:
+        return x if isinstance(x, str) else str(x)
+    except Exception:
+        return '?'
 
 
 def run_irc_case(case, ctors=None):
     """case: {'call': 'raw' | constructor name, 'prefix': tokens|None,
-    'command': tokens|None (raw only), 'args': [tokens|None], 'bytes': bool}.
+    'command': tokens|None (raw only), 'args': [tokens|None], 'bytes': bool | [bool per argument]}.
     Runs it on the real code.  Returns (trace, info)."""
     from circuits.protocols.irc import Message
     from circuits.protocols.irc.utils import parsemsg
     from circuits.protocols.line import splitLines
     ctors = ctors or ctor_table()
     call = case['call']
-    as_bytes = bool(case.get('bytes'))
+    as_bytes = case.get('bytes') or False       # bool, or one bool per argument
     word = call.encode() if call != 'raw' else b'CMD'
-    args = [_realise(a, as_bytes, word) for a in case['args']]
+    if isinstance(as_bytes, list):
+        args = [_realise(a, bool(b), word) for a, b in zip(case['args'], as_bytes)]
+    else:
+        args = [_realise(a, bool(as_bytes), word) for a in case['args']]
     info = {'outcome': '', 'error': '', 'fields': None, 'wire': None}
     lines = []
     try:
@@ -399,6 +416,9 @@ def run_irc_case(case, ctors=None):
             ev = ctors[call][0](*args)
             m = ev.args[0]
         w = bytes(m)
+        if not isinstance(w, (bytes, bytearray)):
+            raise TypeError('bytes(message) is not bytes')
+        w = bytes(w)
         fields = (m.prefix, m.command, list(m.args))
     except Exception as e:       # refusing is always allowed
         info['outcome'] = 'reject'
@@ -426,7 +446,12 @@ def run_irc_case(case, ctors=None):
             lines.append(_plain('parse_error'))
             continue
         ln = _plain('parsed')
-        nick, user, host = prefix
+        try:
+            nick, user, host = prefix
+            pargs = list(pargs)
+        except Exception:
+            lines.append(_plain('parse_error'))
+            continue
         if user is None and host is None:
             ptxt = nick
         else:
@@ -445,10 +470,12 @@ def irc_cause(info):
     """Classify why a serialised message fails (first applicable cause in a
     fixed order); computed from the message's own fields."""
     prefix, command, args = info['fields']
+    prefix = None if prefix is None else _txt(prefix)
+    args = [_txt(a) for a in args]
     crlf = ('\r', '\n')
     if prefix is not None and any(c in prefix for c in crlf):
         return 'prefix_crlf'
-    if command is not None and any(c in str(command) for c in crlf):
+    if command is not None and any(c in _txt(command) for c in crlf):
         return 'command_crlf'
     if any('\n' in a for a in args):
         return 'arg_lf'
@@ -456,7 +483,7 @@ def irc_cause(info):
         return 'arg_cr'
     if command is None:
         return 'command_none'
-    command = str(command)
+    command = _txt(command)
     if command == '':
         return 'command_empty'
     if ' ' in command:
@@ -479,8 +506,13 @@ def irc_cause(info):
 
 
 def irc_witness(case, info):
-    return {'part': 'irc', 'via': 'raw' if case['call'] == 'raw' else 'constructor',
-            'cause': irc_cause(info) if info['fields'] is not None else 'none'}
+    try:
+        cause = irc_cause(info) if info['fields'] is not None else 'none'
+    except Exception:        # never let the shape of what the code returns crash the harness
+        cause = 'unexplained'
+    b = case.get('bytes') or False
+    return {'part': 'irc', 'via': 'raw' if case['call'] == 'raw' else 'constructor', 'cause': cause,
+            'args_as': 'bytes' if b is True else 'mixed' if b else 'str'}
 
 
 def strs(tokens, maxlen):
@@ -596,7 +628,9 @@ def random_irc_case(rnd, ctors):
     for i in range(entry[1], k):
         if not entry[3] and rnd.random() < 0.2:
             args[i] = None
-    return {'part': 'irc', 'call': name, 'args': args, 'bytes': rnd.random() < 0.2, 'origin': 'random'}
+    mode = rnd.random()
+    return {'part': 'irc', 'call': name, 'args': args,
+            'bytes': True if mode < 0.2 else [rnd.random() < 0.5 for _ in args] if mode < 0.4 else False, 'origin': 'random'}
 
 
 def mutate_irc_trace(rnd, trace):
@@ -792,7 +826,7 @@ def run(tier, replay=None):
     seen = set()
 
     def add_irc(case):
-        key = json.dumps([case['call'], case.get('prefix'), case.get('command'), case['args'], bool(case.get('bytes'))])
+        key = json.dumps([case['call'], case.get('prefix'), case.get('command'), case['args'], case.get('bytes') or False])
         if key in seen:
             return None
         seen.add(key)
@@ -809,7 +843,15 @@ def run(tier, replay=None):
         vs = by_case[key]
         n_models += 1
         cs = vs['pinned']['cs']
+        variants = []
         for case in cases_of_model_case(cs, ctors):
+            variants.append(case)
+            if any(case['args']):
+                # the same argument strings handed over as bytes (Message accepts both)
+                variants.append(dict(case, bytes=True))
+                if len(case['args']) > 1:
+                    variants.append(dict(case, bytes=[i == len(case['args']) - 1 for i in range(len(case['args']))]))
+        for case in variants:
             trace = add_irc(case)
             if trace is None:
                 continue
@@ -820,8 +862,10 @@ def run(tier, replay=None):
             else:
                 ctx.note_drift('IRC case %s %s: real lines differ from IrcMsg.tla (pinned and fixed variants)'
                                % (case['call'], {k: case.get(k) for k in ('prefix', 'command', 'args')}))
-    for case in sweep_cases(ctors, quick, rnd):
+    for n, case in enumerate(sweep_cases(ctors, quick, rnd)):
         add_irc(case)
+        if any(case['args']) and n % 3 == 0:
+            add_irc(dict(case, bytes=True))
     for _ in range(1500 if quick else 30000):
         add_irc(random_irc_case(rnd, ctors))
     lap('irc cases run: %d' % len(irc_runs))
